@@ -1,0 +1,142 @@
+//go:build verif
+
+package netutil
+
+// Contracts for govc (contract-based deductive verification, see /verif/DESIGN.md).
+// Comment-only: with the tag off this file is not compiled, with it on it adds no code.
+
+//@ const-global ipv4Masks
+
+//@ uf pow2(int) int
+//@ axiom pow2_0: pow2(0) == 1
+//@ axiom pow2_s: forall k int {pow2(k)} :: k > 0 ==> pow2(k) == 2 * pow2(k - 1)
+
+// ---- abstract view (DESIGN C11): the set of (network, prefix length) pairs present ----
+//@ pure M(o int) int = ipv4Masks[o-1]
+//@ pure inList(f *IPv4Filter, n int, o int) bool = exists i int {f.ipList[i][0]} :: 0 <= i && i < f.index && f.ipList[i][1] == o && f.ipList[i][0] == n
+//@ pure inMaps(f *IPv4Filter, n int, o int) bool = has(f.ipMaps[o-1], n) && f.ipMaps[o-1][n]
+//@ pure inView(f *IPv4Filter, n int, o int) bool = 1 <= o && o <= 32 && ite(f.mode == 0, inList(f, n, o), inMaps(f, n, o))
+// membership oracle: x lies inside some (n, o) of the view, i.e. exists (n, o) in view :: and32(x, M(o)) == n, with the
+// pair eliminated by the one-point rule (list entry i stands for the pair (ipList[i][0], ipList[i][1]))
+//@ pure coveredList(f *IPv4Filter, x int) bool = exists i int {f.ipList[i][0]} :: 0 <= i && i < f.index && f.ipList[i][1] > 0 && and32(x, M(f.ipList[i][1])) == f.ipList[i][0]
+//@ pure coveredMaps(f *IPv4Filter, x int) bool = exists j int {f.ipMaps[j]} :: 0 <= j && j < 32 && has(f.ipMaps[j], and32(x, M(j+1))) && f.ipMaps[j][and32(x, M(j+1))]
+//@ pure covered(f *IPv4Filter, x int) bool = ite(f.mode == 0, coveredList(f, x), coveredMaps(f, x))
+//@ pure all(f *IPv4Filter) bool = f.matchAll.val
+//@ pure wf(f *IPv4Filter) bool = f != nil && f.matchAll != nil && (f.mode == 0 || f.mode == 1) && 0 <= f.index && f.index <= 256
+//@   | && (f.mode == 0 ==> forall j int {f.ipList[j][1]} :: 0 <= j && j < f.index ==> f.ipList[j][1] <= 32)
+//@   | && (f.mode == 1 ==> forall j int {f.ipMaps[j]} :: 0 <= j && j < 32 ==> f.ipMaps[j] != nil)
+//@   | && (f.mode == 1 ==> forall j int, k int {f.ipMaps[j], f.ipMaps[k]} :: 0 <= j && j < k && k < 32 ==> f.ipMaps[j] != f.ipMaps[k])
+//@ pure isV4in6(ip net.IP) bool = len(ip) == 16 && ip[0] == 0 && ip[1] == 0 && ip[2] == 0 && ip[3] == 0 && ip[4] == 0 && ip[5] == 0 && ip[6] == 0 && ip[7] == 0 && ip[8] == 0 && ip[9] == 0 && ip[10] == 255 && ip[11] == 255
+//@ pure ip4def(ip net.IP) bool = len(ip) == 4 || isV4in6(ip)
+//@ pure ip4(ip net.IP) int = ite(len(ip) == 4, be32(ip), be32(ip[12:16]))
+//@ pure validCIDR(c *net.IPNet, ones int, bits int) bool = bits == 32 && ones <= 32 && len(c.IP) == 4
+
+//@ shared IPv4Filter.mode guarded_by x.mutex.wheld reads x.mutex.wheld || x.mutex.rheld
+//@ shared IPv4Filter.index guarded_by x.mutex.wheld reads x.mutex.wheld || x.mutex.rheld
+//@ shared IPv4Filter.ipList guarded_by x.mutex.wheld reads x.mutex.wheld || x.mutex.rheld
+//@ shared IPv4Filter.ipMaps guarded_by x.mutex.wheld reads x.mutex.wheld || x.mutex.rheld
+//@ shared IPv4Filter.matchAll immutable
+// lock invariant: the representation is well formed whenever the lock is released (so every critical section is
+// one atomic step from a well-formed state to a well-formed state)
+//@ lockinv IPv4Filter.mutex :: wf(x)
+
+//@ func NewIPv4Filter
+//@   attr constructor yes
+//@   modifies nothing
+//@   ensures wf: wf(result) && fresh(result)
+//@   ensures empty: !all(result) && forall n int, o int :: !inView(result, n, o)
+//@   ensures unlocked: !result.mutex.wheld && !result.mutex.rheld
+//@   ensures table0: ipv4Masks[0] == 4294967296 - pow2(31)
+//@   ensures table1: ipv4Masks[1] == 4294967296 - pow2(30)
+//@   ensures table2: ipv4Masks[2] == 4294967296 - pow2(29)
+//@   ensures table3: ipv4Masks[3] == 4294967296 - pow2(28)
+//@   ensures table4: ipv4Masks[4] == 4294967296 - pow2(27)
+//@   ensures table5: ipv4Masks[5] == 4294967296 - pow2(26)
+//@   ensures table6: ipv4Masks[6] == 4294967296 - pow2(25)
+//@   ensures table7: ipv4Masks[7] == 4294967296 - pow2(24)
+//@   ensures table8: ipv4Masks[8] == 4294967296 - pow2(23)
+//@   ensures table9: ipv4Masks[9] == 4294967296 - pow2(22)
+//@   ensures table10: ipv4Masks[10] == 4294967296 - pow2(21)
+//@   ensures table11: ipv4Masks[11] == 4294967296 - pow2(20)
+//@   ensures table12: ipv4Masks[12] == 4294967296 - pow2(19)
+//@   ensures table13: ipv4Masks[13] == 4294967296 - pow2(18)
+//@   ensures table14: ipv4Masks[14] == 4294967296 - pow2(17)
+//@   ensures table15: ipv4Masks[15] == 4294967296 - pow2(16)
+//@   ensures table16: ipv4Masks[16] == 4294967296 - pow2(15)
+//@   ensures table17: ipv4Masks[17] == 4294967296 - pow2(14)
+//@   ensures table18: ipv4Masks[18] == 4294967296 - pow2(13)
+//@   ensures table19: ipv4Masks[19] == 4294967296 - pow2(12)
+//@   ensures table20: ipv4Masks[20] == 4294967296 - pow2(11)
+//@   ensures table21: ipv4Masks[21] == 4294967296 - pow2(10)
+//@   ensures table22: ipv4Masks[22] == 4294967296 - pow2(9)
+//@   ensures table23: ipv4Masks[23] == 4294967296 - pow2(8)
+//@   ensures table24: ipv4Masks[24] == 4294967296 - pow2(7)
+//@   ensures table25: ipv4Masks[25] == 4294967296 - pow2(6)
+//@   ensures table26: ipv4Masks[26] == 4294967296 - pow2(5)
+//@   ensures table27: ipv4Masks[27] == 4294967296 - pow2(4)
+//@   ensures table28: ipv4Masks[28] == 4294967296 - pow2(3)
+//@   ensures table29: ipv4Masks[29] == 4294967296 - pow2(2)
+//@   ensures table30: ipv4Masks[30] == 4294967296 - pow2(1)
+//@   ensures table31: ipv4Masks[31] == 4294967296 - pow2(0)
+
+//@ func (*IPv4Filter).Contains
+//@   requires wf(f) && !f.mutex.wheld && !f.mutex.rheld
+//@   modifies f.mutex.rheld
+//@   ensures post: result <==> (all(f) || (ip4def(ip) && covered(f, ip4(ip))))
+//@   ensures unlocked: !f.mutex.wheld && !f.mutex.rheld
+//@   loop 1
+//@     invariant 0 <= i && i <= f.index && f.mutex.rheld && !f.mutex.wheld && f.mode == 0
+//@     invariant ip4def(old(ip)) && nip == ip4(old(ip)) && !all(f)
+//@     invariant forall j int {f.ipList[j][0]} :: 0 <= j && j < i ==> !(f.ipList[j][1] > 0 && and32(nip, M(f.ipList[j][1])) == f.ipList[j][0])
+//@     decreases f.index - i
+//@   loop 2
+//@     invariant 0 <= i && i <= 32 && f.mutex.rheld && !f.mutex.wheld && f.mode == 1
+//@     invariant ip4def(old(ip)) && nip == ip4(old(ip)) && !all(f)
+//@     invariant forall j int {f.ipMaps[j]} :: 0 <= j && j < i ==> !(has(f.ipMaps[j], and32(nip, M(j+1))) && f.ipMaps[j][and32(nip, M(j+1))])
+//@     decreases 32 - i
+
+// The prefix length / bit length of a mask value (net.IPMask.Size), as uninterpreted functions of the mask.
+//@ pure onesOf(c *net.IPNet) int = c.Mask.Size$0()
+//@ pure bitsOf(c *net.IPNet) int = c.Mask.Size$1()
+//@ pure valid(c *net.IPNet) bool = bitsOf(c) == 32 && onesOf(c) <= 32 && len(c.IP) == 4
+//@ pure netOf(c *net.IPNet) int = and32(be32(c.IP), M(onesOf(c)))
+//@ pure liveAt(f *IPv4Filter, j int, n int, o int) bool = f.ipList[j][1] == o && f.ipList[j][0] == n
+
+//@ func (*IPv4Filter).Add
+//@   requires wf(f) && !f.mutex.wheld && !f.mutex.rheld && cidr != nil
+//@   modifies f.matchAll.val, f.mutex.wheld, f.mode, f.index, f.ipList, f.ipMaps, entriesOf(f.ipMaps)
+//@   ensures wf: wf(f)
+//@   ensures unlocked: !f.mutex.wheld && !f.mutex.rheld
+//@   ensures invalid: !valid(cidr) ==> result == ErrInvalidIPv4CIDR && all(f) == old(all(f)) && (forall n int, o int :: inView(f, n, o) <==> old(inView(f, n, o)))
+//@   ensures zero: valid(cidr) && onesOf(cidr) == 0 ==> result == nil && all(f) && (forall n int, o int :: inView(f, n, o) <==> old(inView(f, n, o)))
+//@   ensures valid: valid(cidr) && onesOf(cidr) > 0 ==> result == nil && all(f) == old(all(f)) && (forall n int, o int :: inView(f, n, o) <==> (old(inView(f, n, o)) || (o == onesOf(cidr) && n == netOf(cidr))))
+//@   loop 1
+//@     invariant 0 <= i && i <= 32 && f.mutex.wheld && !f.mutex.rheld && f.mode == 1 && f.index == 256 && old(f.index) == 256 && old(f.mode) == 0
+//@     invariant valid(cidr) && ones == onesOf(cidr) && ones > 0 && nip == be32(cidr.IP) && all(f) == old(all(f)) && f.matchAll == old(f.matchAll)
+//@     invariant forall j int, k int {f.ipList[j][k]} {old(f.ipList[j][k])} :: 0 <= j && j < 256 && 0 <= k && k < 2 ==> f.ipList[j][k] == old(f.ipList[j][k])
+//@     invariant forall j int {f.ipMaps[j]} :: 0 <= j && j < i ==> f.ipMaps[j] != nil && fresh(f.ipMaps[j]) && (forall x int {has(f.ipMaps[j], x)} :: !has(f.ipMaps[j], x))
+//@     invariant forall j int, k int {f.ipMaps[j], f.ipMaps[k]} :: 0 <= j && j < k && k < i ==> f.ipMaps[j] != f.ipMaps[k]
+//@     decreases 32 - i
+//@   loop 2
+//@     invariant 0 <= i && i <= 256 && f.mutex.wheld && !f.mutex.rheld && f.mode == 1 && f.index == 256 && old(f.index) == 256 && old(f.mode) == 0
+//@     invariant valid(cidr) && ones == onesOf(cidr) && ones > 0 && nip == be32(cidr.IP) && all(f) == old(all(f)) && f.matchAll == old(f.matchAll)
+//@     invariant forall j int, k int {f.ipList[j][k]} {old(f.ipList[j][k])} :: 0 <= j && j < 256 && 0 <= k && k < 2 ==> f.ipList[j][k] == old(f.ipList[j][k])
+//@     invariant forall j int {f.ipMaps[j]} :: 0 <= j && j < 32 ==> f.ipMaps[j] != nil && fresh(f.ipMaps[j])
+//@     invariant forall j int, k int {f.ipMaps[j], f.ipMaps[k]} :: 0 <= j && j < k && k < 32 ==> f.ipMaps[j] != f.ipMaps[k]
+//@     invariant forall n int, m int {has(f.ipMaps[m], n)} :: 0 <= m && m < 32 ==> ((has(f.ipMaps[m], n) && f.ipMaps[m][n]) <==> exists j int {f.ipList[j][0]} :: 0 <= j && j < i && liveAt(f, j, n, m + 1))
+//@     decreases 256 - i
+
+//@ func (*IPv4Filter).Remove
+//@   requires wf(f) && !f.mutex.wheld && !f.mutex.rheld && cidr != nil
+//@   modifies f.matchAll.val, f.mutex.wheld, f.ipList, entriesOf(f.ipMaps)
+//@   ensures wf: wf(f)
+//@   ensures unlocked: !f.mutex.wheld && !f.mutex.rheld
+//@   ensures invalid: !valid(cidr) ==> result == ErrInvalidIPv4CIDR && all(f) == old(all(f)) && (forall n int, o int :: inView(f, n, o) <==> old(inView(f, n, o)))
+//@   ensures zero: valid(cidr) && onesOf(cidr) == 0 ==> result == nil && !all(f) && (forall n int, o int :: inView(f, n, o) <==> old(inView(f, n, o)))
+//@   ensures valid: valid(cidr) && onesOf(cidr) > 0 ==> result == nil && all(f) == old(all(f)) && (forall n int, o int :: inView(f, n, o) <==> (old(inView(f, n, o)) && !(o == onesOf(cidr) && n == netOf(cidr))))
+//@   loop 1
+//@     invariant 0 <= i && i <= f.index && f.mutex.wheld && !f.mutex.rheld && f.mode == 0
+//@     invariant valid(cidr) && ones == onesOf(cidr) && ones > 0 && nip == be32(cidr.IP) && all(f) == old(all(f)) && f.matchAll == old(f.matchAll)
+//@     invariant forall j int, k int {f.ipList[j][k]} :: i <= j && j < 256 && 0 <= k && k < 2 ==> f.ipList[j][k] == old(f.ipList[j][k])
+//@     invariant forall j int {f.ipList[j][1]} {old(f.ipList[j][1])} :: 0 <= j && j < i ==> ite(old(f.ipList[j][1]) == ones && old(f.ipList[j][0]) == netOf(cidr), f.ipList[j][0] == 0 && f.ipList[j][1] == 0, f.ipList[j][0] == old(f.ipList[j][0]) && f.ipList[j][1] == old(f.ipList[j][1]))
+//@     decreases f.index - i
